@@ -31,6 +31,8 @@ class Res:
     def matches(self, o):
         if self.kind == "arg":
             return o[0] == "arg" and o[1] == self.idx and len(o) == 2
+        if self.kind == "field":       # field `idx` (by name) of the by-value `self` parameter
+            return o[0] == "arg" and o[1] == 1 and len(o) == 3 and o[2] == "." + str(self.idx)
         return o[0] == "arg" and o[1] == 1 and len(o) == 3 and o[2] == "." + str(self.idx)
 
 
@@ -115,6 +117,20 @@ class Linear:
                         if is_res(body, el, res):
                             m = {1}
                             descs.append("handed to the boxed callback as parameter %d" % (2 + j))
+                elif agg is not None and agg["kind"] == "adt" and (name, i) in DEFERRED_CLOSURE_CONSUMERS:
+                    # a crate command struct holding the resource (`queue(RunCleanup(cleanup))`): applied once, later; what
+                    # happens to the resource is what `<Struct as Command>::apply` does with that field of `self`
+                    ap_ = None
+                    for im in self.prog.type_impls(agg.get("adt"), "Command"):
+                        for it_ in im.get("items", []):
+                            if it_.get("name") == "apply":
+                                ap_ = self.prog.body(it_["path"])
+                    for j, el in enumerate(agg["ops"]):
+                        if is_res(body, el, res) and ap_ is not None:
+                            fname = (agg.get("fields") or [str(j)])[j] if j < len(agg.get("fields") or []) else str(j)
+                            inner = self.summary(ap_, Res("field", fname), depth + 1)
+                            m = compose({1}, inner)
+                            descs.append("held by command %s queued with %s" % (agg.get("adt"), name))
                 elif agg is not None and agg["kind"] == "closure":
                     cbody = self.prog.body(agg["closure"])
                     for j, cap in enumerate(agg["ops"]):
